@@ -291,7 +291,8 @@ def augment_structured(lines, rng, per_op=40, max_digits=24):
                     lowbits = 64 * (nd - keep)
                     shared = ((a >> lowbits) << lowbits) | (rng.randrange(1 << lowbits) if lowbits else 0)
                     bk = 1 << (64 * rng.randrange(1, max(2, nd + 1)))     # a power of the digit base near a's size
-                    v = rng.choice([a + bk, max(a - bk, 0), a + bk + 1, max(a - bk - 1, 0), a + bk - 1, a, a + 1, max(a - 1, 0),
+                    comp = (1 << (64 * nd)) - a if nd else 1                 # a + comp = B^nd: the carry runs through every digit
+                    v = rng.choice([comp, comp, comp - 1, comp + 1, a + bk, max(a - bk, 0), a + bk + 1, max(a - bk - 1, 0), a + bk - 1, a, a + 1, max(a - 1, 0),
                                     a * rng.choice([2, 3, 5, 1 << 64, (1 << 64) + 1, MAX]), a << (64 * rng.randrange(1, 3)),
                                     a >> 64, a >> 1, a * v if v.bit_length() < 400 else a, a ^ 1, a | 1, shared, shared, shared])
                     if rng.randrange(4) == 0:
